@@ -116,6 +116,14 @@ def _letter_fragment(letter, strand):
     if variant in ('mm1hi', 'mm1lo'):
         r1['seq'][mm1] = _alt(r1['seq'][mm1])
         r1['quals'][mm1] = Q_HI if variant == 'mm1hi' else Q_LO
+    if variant == 'mm1q60':
+        # a mismatch called at phred 60: against a phred-50 observation of the other base it still dominates
+        r1['seq'][mm1] = _alt(r1['seq'][mm1])
+        r1['quals'][mm1] = 60
+    if variant == 'cleanq50':
+        r1['quals'] = [50] * len(r1['quals'])
+        if gap is not None:
+            r2['quals'] = [50] * len(r2['quals'])
     if variant == 'ins1':
         # R1 carries a one-base insertion (not part of any reference position); placed so that the motif end stays intact
         k = 4 if not strand else 2
@@ -144,8 +152,10 @@ def alphabet(tier, level):
     out = []
     for l1 in l1s:
         for gap in gaps:
-            for variant in ('clean', 'mm1hi', 'mm1lo', 'mm2', 'ins1'):
+            for variant in ('clean', 'mm1hi', 'mm1lo', 'mm2', 'ins1', 'mm1q60', 'cleanq50'):
                 if variant == 'mm2' and gap is None:
+                    continue
+                if variant in ('mm1q60', 'cleanq50') and gap not in (None, 0):
                     continue
                 if variant == 'ins1' and gap not in (None, 0, 3):
                     continue
@@ -385,6 +395,15 @@ def run_case(case):
                 try:
                     if not mol.add_fragment(fo):
                         raise HarnessError(f'fragment not accepted into the molecule: {case}')
+                    if case.get('incremental') and len(fobjs) == 0:
+                        # history: a consensus was already requested when the molecule held only its first fragment
+                        path0 = _scratch('t0.bam')
+                        with pysam.AlignmentFile(path0, 'wb', header=header) as target0:
+                            try:
+                                mol.deduplicate_majority(target0, 'consensus_early', max_N_span=case.get('max_N_span'))
+                            except Exception:
+                                pass
+                        os.unlink(path0)
                 except OverflowError:
                     if not cap:
                         raise
@@ -652,6 +671,13 @@ def run_shard(shard, tier, acc):
             acc.case(case, transitions=1 + info['records'], nontrivial=info['gapped'] or bool(info['conflict']), outcome=outcome)
             for sig, d in viols:
                 acc.violation(sig, case, d)
+        if level >= 2:
+            case = {'cls': cls, 'strand': strand, 'letters': letters, 'api': 'dedup', 'max_N_span': None, 'incremental': True}
+            viols, info = run_case(case)
+            viols = [(sg.replace('deduplicate_majority', 'deduplicate_majority:after-an-earlier-consensus-request', 1), d) for sg, d in viols]
+            acc.case(case, transitions=1 + info['records'], nontrivial=True, outcome=f"dedup:incremental:records={info['records']}")
+            for sig, d in viols:
+                acc.violation(sig, case, d)
         if level >= 2 and cls != 'plain':
             # a fragment cap smaller than the number of fragments offered: the consensus is made of the fragments the molecule
             # holds, its fragment-count tag still counts every fragment of the molecule (as on the source reads)
@@ -671,4 +697,6 @@ def replay(case):
             raise HarnessError('command-line batch layout changed; cannot replay this case')
         return got[1]
     viols, _ = run_case(case)
+    if case.get('incremental'):
+        viols = [(sg.replace('deduplicate_majority', 'deduplicate_majority:after-an-earlier-consensus-request', 1), d) for sg, d in viols]
     return viols
